@@ -993,14 +993,21 @@ def _quant(it, arg, universal):
             it.assign(g.target, x, fr)
             vals.append(it.as_goal(_eval_nobranch(it, node.elt, fr)))
         return ops.zand(*vals) if universal else ops.zor(*vals)
+    def _truth(vec_, i):
+        # numpy truthiness of an element: booleans as they are, numbers are true iff non-zero
+        e = vec_.f(i)
+        if vec_.kind == "bool" or isinstance(e, bool) or (is_sym(e) and z3.is_bool(e)):
+            return zbool(e)
+        return (e != 0) if is_sym(e) else z3.BoolVal(e != 0)
+
     if isinstance(arg, (Arr, Vec)):
         v = _vec_of(arg)
-        return QAll(v.n, lambda i: zbool(v.f(i))) if universal else QAny(v.n, lambda i: zbool(v.f(i)))
+        return QAll(v.n, lambda i: _truth(v, i)) if universal else QAny(v.n, lambda i: _truth(v, i))
     if isinstance(arg, Masked):
         return (
-            QAll(arg.vec.n, lambda i: z3.Implies(zbool(arg.mask.f(i)), zbool(arg.vec.f(i))))
+            QAll(arg.vec.n, lambda i: z3.Implies(zbool(arg.mask.f(i)), _truth(arg.vec, i)))
             if universal
-            else QAny(arg.vec.n, lambda i: z3.And(zbool(arg.mask.f(i)), zbool(arg.vec.f(i))))
+            else QAny(arg.vec.n, lambda i: z3.And(zbool(arg.mask.f(i)), _truth(arg.vec, i)))
         )
     if isinstance(arg, (bool,)) or (is_sym(arg) and z3.is_bool(arg)):
         return arg
